@@ -177,7 +177,7 @@ LEVEL_TEXT = ("Coq theorems about a value-level pool model (all histories, no bo
               "results denote exactly the union / intersection of the operands' values, trimming / conversion / copy denote the operand's value, the per-step gate is sound, and "
               "re-basing the model on language-equivalent observations is justified (operations are congruences). Tie to the C++: random and targeted histories on both BDD encodings "
               "of libvata rebuilt from /repo; after every step every live handle (and its top-down conversion) is dumped and compared by the extracted verified equivalence decider.")
-LEVEL_NOTE = ("MTBDD apply functors, table sharing and usefulness analysis are not modelled (a handle = the rule set it denotes). Trusted: Coq kernel, ExtrOcamlBasic extraction, OCaml/C++ "
+LEVEL_NOTE = ("In the pool model a handle = the rule set it denotes: table sharing and usefulness analysis are not modelled; the symbolic tables (tuple -> MTBDD of parent sets) and their Union / Intersection through Apply2 are modelled separately and proved to give, for every symbol, the union / product of the explicit rules (C08_symbolic_*). Trusted: Coq kernel, ExtrOcamlBasic extraction, OCaml/C++ "
               "glue, libvata's own Timbuk dump/parse for observation, generators. No axioms.")
 TECHNIQUE = "Coq proof of a value-level pool model + verified equivalence gate on every live handle after every step of generated histories"
 DESIGN_REF = "DESIGN.md 5/C08"
